@@ -209,7 +209,7 @@ pub fn generate(rng: &mut Rng, fault_free: bool) -> K16 {
     let naddr = 1 + rng.usize_below(5);
     let mut lg = LineGen { ctr: rng.below(1000) as u32, addrs: (0..naddr).map(|i| [0xa0, rng.below(4) as u8, 1 + i as u8]).collect(), odd: false };
     // swarm: which fault kinds are on in this run
-    let malformed_rate = if !fault_free && rng.coin() { *rng.pick(&[0.05, 0.15, 0.4]) } else { 0.0 };
+    let malformed_rate: f64 = if !fault_free && rng.coin() { *rng.pick(&[0.05, 0.15, 0.4]) } else { 0.0 };
     let seg_mode = if fault_free { 0 } else { rng.below(6) }; // 0 line aligned, 1 many lines per segment, 2 random cuts, 3 one-byte stretch, 4 cut before terminators, 5 mixed
     let gaps_benign = [100_000u64, 150_000, 300_000];
     let gaps_all = [0u64, 1_000, 49_000, 50_000, 51_000, 60_000, 200_000, 5_000_000, 0, 1_000, 20_000, 49_999, 50_001];
@@ -232,7 +232,15 @@ pub fn generate(rng: &mut Rng, fault_free: bool) -> K16 {
     let nsess_accept = if retry { 1 + rng.usize_below(3) } else { 1 };
     let mut sessions = vec![];
     let deep = simcore::deep() && rng.chance(0.33);
-    let total_lines = 3 + rng.usize_below(if deep { 120 } else if for_1090 { 30 } else { 38 });
+    // a few runs deliver a backlog of several hundred lines in very few segments (a client that
+    // was suspended, or a feed busier than the client): more than one full BufReader fill
+    let burst = !fault_free && rng.chance(0.04);
+    let total_lines = if burst { 260 + rng.usize_below(200) } else { 3 + rng.usize_below(if deep { 120 } else if for_1090 { 30 } else { 38 }) };
+    let malformed_rate = if burst { malformed_rate.min(0.05) } else { malformed_rate };
+    let seg_mode = if burst { 1 } else { seg_mode };
+    if burst {
+        faults.push("backlog_burst".into());
+    }
     for si in 0..nsess_accept {
         if retry || (!for_1090 && !fault_free && rng.chance(0.2)) {
             // server not (yet) up: refused / timed-out connects before this accept
@@ -274,7 +282,7 @@ pub fn generate(rng: &mut Rng, fault_free: bool) -> K16 {
             }
             1 => {
                 for &st in line_starts.iter().skip(1) {
-                    if rng.chance(0.3) {
+                    if rng.chance(if burst { 0.004 } else { 0.3 }) {
                         splits.push((st, pick_gap(rng)));
                     }
                 }
@@ -618,7 +626,8 @@ pub fn execute(sc: &K16) -> Outcome {
 
 fn leak_fault_name(f: &str) -> &'static str {
     // fault names are a closed set; map to 'static for the counters
-    const NAMES: [&str; 26] = [
+    const NAMES: [&str; 27] = [
+        "backlog_burst",
         "connect_refused",
         "connect_timeout",
         "many_lines_per_segment",
